@@ -167,6 +167,13 @@ func ProfileFor(focus, arm string) Profile {
 		p.Unix = 0.3
 		p.RepeatToken = 0.2
 		p.OddQueries = 0.1
+		if arm == "overload" {
+			// refusals made by the listener itself (per-connection limit)
+			p.Listeners = []string{"tcp", "gnet", "tls"}
+			p.NConns, p.OpsPerConn = [2]int{1, 4}, [2]int{4, 40}
+			p.SpanUs = 300_000
+			p.OddQueries = 0
+		}
 	case "C07", "C08", "C19":
 		p.Cache = "ample"
 		if focus == "C07" && arm == "tiny" {
@@ -260,6 +267,22 @@ func generate(seed uint64, focus, arm string) *plan.Plan {
 		}
 	}
 	specialize(r, p, focus, arm)
+	if arm == "redis" {
+		// second-level cache on the simulated redis server; a small memory
+		// cache in half of the runs so that entries come back through redis
+		rs := &plan.RedisSpec{LatUs: [2]int64{100, int64([]int{600, 5000, 30_000}[r.intn(3)])}}
+		if r.p(0.5) {
+			p.Router.Cache.MemSize = r.rng(600, 4000)
+		}
+		if r.p(0.3) {
+			from := r.i64(2_000_000, max(3_000_000, p.Router.HorizonUs/2))
+			rs.DownUs = [][2]int64{{from, from + r.i64(500_000, 20_000_000)}}
+		}
+		if r.p(0.2) {
+			rs.FlushUs = []int64{r.i64(2_000_000, max(3_000_000, p.Router.HorizonUs/2))}
+		}
+		p.Router.Cache.Redis = rs
+	}
 	return p
 }
 
@@ -917,7 +940,7 @@ func specialize(r *rng, p *plan.Plan, focus, arm string) {
 			}
 		}
 		rp.HorizonUs = last + 10_000_000 + 8_000_000 + 12_000_000
-	case "C13":
+	case "C13", "C12":
 		if arm == "overload" {
 			// one burst per connection, upstream holds every reply for 2 s
 			for i := range rp.Servers {
